@@ -11,6 +11,7 @@ import (
 	"fmt"
 	"io"
 	"net"
+	"os"
 	"runtime"
 	"sort"
 	"strconv"
@@ -54,6 +55,7 @@ type Action struct {
 	Ok   bool
 	Hold bool
 	Tag  int
+	Tmo  bool // VEof: the read fails with a timeout (a peer that went silent) instead of EOF; the same step for the model
 }
 
 func (a Action) Coq() string {
@@ -83,7 +85,11 @@ func (a Action) Coq() string {
 	return "?"
 }
 func (a Action) String() string {
-	return strings.NewReplacer("(", "", ")", "", "%nat", "").Replace(a.Coq())
+	s := strings.NewReplacer("(", "", ")", "", "%nat", "").Replace(a.Coq())
+	if a.K == VEof && a.Tmo {
+		s += " (timeout)"
+	}
+	return s
 }
 
 type Ev struct {
@@ -389,7 +395,7 @@ func errClass(err error) int {
 		return 2
 	case errors.Is(err, io.ErrClosedPipe):
 		return 3
-	case errors.Is(err, io.EOF), errors.Is(err, net.ErrClosed):
+	case errors.Is(err, io.EOF), errors.Is(err, net.ErrClosed), errors.Is(err, os.ErrDeadlineExceeded):
 		return 4
 	case errors.Is(err, errDial):
 		return 6
@@ -718,7 +724,11 @@ func Run(next func(v *View) *Action) (Script, []Obs, []int) {
 			}
 		case VEof:
 			f := w.conns[a.N]
-			f.fail(io.EOF)
+			if a.Tmo {
+				f.fail(os.ErrDeadlineExceeded)
+			} else {
+				f.fail(io.EOF)
+			}
 			deadline := time.Now().Add(wait)
 			for !f.isClosed() && time.Now().Before(deadline) {
 				time.Sleep(50 * time.Microsecond)
@@ -973,6 +983,8 @@ func Catalogue() map[string][]Action {
 		"c01:late-reply-after-cancel":             {st(0), dl(0, true), wok(0), can(0), st(1), dl(1, true), wok(1), fd(0, 100), st(2), wok(2), fd(1, 101), fd(0, 102)},
 		"c09:two-concurrent-two-conns":            {st(0), dl(0, true), st(1), dl(1, true), wok(0), wok(1), fd(1, 101), fd(0, 100), st(2), st(3), wok(2), wok(3), fd(0, 102), fd(1, 103)},
 		"c08:stale-idle-detected":                 {st(0), dl(0, true), wok(0), fd(0, 100), eof(0), st(1), dl(1, true), wok(1), fd(1, 101)},
+		"c08:reused-goes-silent-retry-fresh":      {st(0), dl(0, true), wok(0), fd(0, 100), st(1), wok(1), Action{K: VEof, N: 0, Tmo: true}, dl(1, true), wok(1), fd(1, 101)},
+		"c08:idle-times-out-then-fresh":           {st(0), dl(0, true), wok(0), fd(0, 100), Action{K: VEof, N: 0, Tmo: true}, st(1), dl(1, true), wok(1), fd(1, 101)},
 		"c08:reused-dies-retry-fresh":             {st(0), dl(0, true), wok(0), fd(0, 100), st(1), wok(1), eof(0), dl(1, true), wok(1), fd(1, 101)},
 		"c08:reused-write-error-retry":            {st(0), dl(0, true), wok(0), fd(0, 100), st(1), werr(1), dl(1, true), wok(1), fd(1, 101)},
 		"c08:new-conn-dies-no-retry":              {st(0), dl(0, true), wok(0), eof(0), st(1), dl(1, true), wok(1), fd(1, 101)},
@@ -1025,6 +1037,7 @@ func RandomNext(r *hx.RNG, maxSteps int) func(v *View) *Action {
 				}
 			case VEof:
 				a.N = r.Intn(v.NConns + 1)
+				a.Tmo = r.Chance(1, 3)
 			case VReadFail:
 				tag++
 				a.Tag = tag
